@@ -228,7 +228,7 @@ func C03(tier string) int {
 		)
 		lens = func(w int) []int {
 			var r []int
-			for i := 1; i <= min(w+2, 20); i++ { // wider decimal operands did not finish (disassembly of the number) or exceed the unwinding bound: outside the claim
+			for i := 1; i <= min(w+2, 18); i++ { // wider decimal operands did not finish (disassembly of the number) or exceed the unwinding bound: outside the claim
 				r = append(r, i)
 			}
 			return r
@@ -247,7 +247,7 @@ func C03(tier string) int {
 			"mode ha only; shared-object and floating-point-literal operands are outside",
 			"input text is ASCII",
 		},
-		Bounds: map[string]interface{}{"architectures": archStrings(archs), "numeric_bit_lengths": "quick: {1,w-1,w,w+1,w+2}; thorough: 1..min(w+2,20)", "opcodes_with_shapes": len(c03Shapes), "opcode_sets": map[string]string{"setA": setA, "setB": setB, "setC": setC, "setAll": setAll}},
+		Bounds: map[string]interface{}{"architectures": archStrings(archs), "numeric_bit_lengths": "quick: {1,w-1,w,w+1,w+2}; thorough: 1..min(w+2,18)", "opcodes_with_shapes": len(c03Shapes), "opcode_sets": map[string]string{"setA": setA, "setB": setB, "setC": setC, "setAll": setAll}},
 		Rule:   "one obligation per assert/panic site per (architecture, opcode, numeric bit lengths); operand values are solver variables; distinct by (function,args,tag,position)",
 		ViolationKey: func(o *Outcome, ob *OblResult) string {
 			return o.Config.Name + ";" + ob.Kind + ":" + ob.Tag
